@@ -59,7 +59,7 @@ Proof. vm_compute. reflexivity. Qed.
    tail (one vblock + half a vblock); model = specification, and the nibble order matters *)
 Definition ex_c := {| q_mode := 0; q_epv := 32; q_P := {| p_mr := 1; p_nr := 1; p_mc := 1; p_nc := 1; p_kc := 1 |};
   q_rows := 2; q_cols := 3; q_nblocks := 3; q_bs := 16; q_alpha := 1%Z; q_beta := 0%Z; q_bias := 0;
-  q_sl := 5; q_sq := 7; q_ss := 9; q_sc := 0; q_sbias := 0; q_out := None |}.
+  q_sl := 5; q_sq := 7; q_ss := 9; q_sc := 0; q_sbias := 0; q_zb := 0; q_out := None |}.
 Example C37_nonvacuous :
   all_cells 2 3 (model4 ex_c) = all_cells 2 3 (spec4 ex_c) /\
   nth 0 (all_cells 2 3 (spec4 ex_c)) None <> Some 0%Z /\
